@@ -78,6 +78,13 @@ func (rt *RoundTripper) cachedResponse(req *http.Request) (*http.Response, error
 }
 
 func (rt *RoundTripper) cacheResponse(req *http.Request, resp *http.Response) {
+	// a header field may be sent on multiple lines, which is the same as a single line with the values
+	// separated by commas (RFC 7230, section 3.2.2). The evaluation of the directives considers only
+	// the first line. Otherwise, a no-store, or max-age=0 sent on a further line would be ignored.
+	if values := resp.Header.Values("Cache-Control"); len(values) > 1 {
+		resp.Header.Set("Cache-Control", strings.Join(values, ", "))
+	}
+
 	reasons, expires, err := cachecontrol.CachableResponse(req, resp, cachecontrol.Options{PrivateCache: true})
 	if err != nil || len(reasons) != 0 {
 		return
